@@ -7,27 +7,52 @@
 
 namespace etl {
 
-/// Computes the remainder of the floating point division operation x/y.
-/// \details https://en.cppreference.com/w/cpp/numeric/math/remainder
-/// \ingroup cmath
-[[nodiscard]] constexpr auto remainder(float x, float y) noexcept -> float { return etl::detail::gcem::fmod(x, y); }
+namespace detail {
+
+template <typename T>
+[[nodiscard]] constexpr auto remainder(T x, T y) noexcept -> T
+{
+    // remainder of the truncated quotient: has the sign of x, |r| < |y|
+    auto const r = etl::detail::gcem::fmod(x, y);
+    if (r != r) {
+        return r;
+    }
+
+    auto const ax  = x < T(0) ? -x : x;
+    auto const ay  = y < T(0) ? -y : y;
+    auto const ar  = r < T(0) ? -r : r;
+    auto const odd = etl::detail::gcem::fmod(ax, ay + ay) >= ay; // parity of the truncated quotient
+
+    // the quotient is rounded to nearest, ties to even: one more step if more than half of y is left
+    if (ar > ay - ar or (ar == ay - ar and odd)) {
+        return r < T(0) ? r + ay : r - ay;
+    }
+    return r;
+}
+
+} // namespace detail
 
 /// Computes the remainder of the floating point division operation x/y.
 /// \details https://en.cppreference.com/w/cpp/numeric/math/remainder
 /// \ingroup cmath
-[[nodiscard]] constexpr auto remainderf(float x, float y) noexcept -> float { return etl::detail::gcem::fmod(x, y); }
+[[nodiscard]] constexpr auto remainder(float x, float y) noexcept -> float { return etl::detail::remainder(x, y); }
 
 /// Computes the remainder of the floating point division operation x/y.
 /// \details https://en.cppreference.com/w/cpp/numeric/math/remainder
 /// \ingroup cmath
-[[nodiscard]] constexpr auto remainder(double x, double y) noexcept -> double { return etl::detail::gcem::fmod(x, y); }
+[[nodiscard]] constexpr auto remainderf(float x, float y) noexcept -> float { return etl::detail::remainder(x, y); }
+
+/// Computes the remainder of the floating point division operation x/y.
+/// \details https://en.cppreference.com/w/cpp/numeric/math/remainder
+/// \ingroup cmath
+[[nodiscard]] constexpr auto remainder(double x, double y) noexcept -> double { return etl::detail::remainder(x, y); }
 
 /// Computes the remainder of the floating point division operation x/y.
 /// \details https://en.cppreference.com/w/cpp/numeric/math/remainder
 /// \ingroup cmath
 [[nodiscard]] constexpr auto remainder(long double x, long double y) noexcept -> long double
 {
-    return etl::detail::gcem::fmod(x, y);
+    return etl::detail::remainder(x, y);
 }
 
 /// Computes the remainder of the floating point division operation x/y.
@@ -35,7 +60,7 @@ namespace etl {
 /// \ingroup cmath
 [[nodiscard]] constexpr auto remainderl(long double x, long double y) noexcept -> long double
 {
-    return etl::detail::gcem::fmod(x, y);
+    return etl::detail::remainder(x, y);
 }
 
 } // namespace etl
